@@ -177,6 +177,27 @@ class Engine:
             sigs, ie = self.single_sigs(h, lines)
             before = set(seen)
             seen |= quick
+            if not sigs and not getattr(self, "_tried_history", False):
+                # not reproducible alone: the failure may depend on state the process carries over from the cases before it
+                # (statics, thread-locals, caches): replay the case together with its predecessors of the batch, once per run
+                self._tried_history = True
+                hdrs = [hh for hh, _ in split_cases(texts)]
+                upto = hdrs.index(h) + 1 if h in hdrs else 0
+                prefix = "".join(case_text(hh, bycase[hh]) for hh in hdrs[max(0, upto - 40):upto])
+                rc_h, io_h, ie_h = run_harness(self.exe, prefix, timeout=300, env_extra=self.spec.harness_env)
+                last = split_cases(io_h)[-1][1] if split_cases(io_h) else []
+                hist = {("crash: " + crash_detail(ln, ie_h)) if ln.startswith("!CRASH") else sig_of(ln)
+                        for ln in last if ln.startswith("!") and (ln.startswith("!CRASH") or self.spec.oracle_relevant(ln))}
+                for sg in sorted(hist):
+                    if sg in before: continue
+                    seen.add(sg)
+                    self.rep.violation(
+                        f"{self.spec.pid}: {sg}",
+                        {"kind": "implementation violates the property's oracle (only after the preceding cases ran in the same process)",
+                         "context": context, "component": self.spec.component, "case": prefix, "failing_case": case_text(h, lines),
+                         "oracle_messages": msgs, "sanitizer": san_summary(ie_h)})
+                    n += 1
+                continue
             for sg in sorted(sigs):
                 if sg in before:
                     continue
